@@ -432,3 +432,34 @@ pub fn alloc_events<const N: usize>(id: usize, ssa: &[GOp]) -> Vec<serde_json::V
     }
     evs
 }
+
+
+/// Renumbers the SSA slots of a program densely (0, 1, 2, ... in evaluation order).  The real tapes number their slots
+/// without gaps and size their tables by the tape length; hand-written programs with sparse slot names must be made dense.
+pub fn compact_slots(p: &Prog) -> Prog {
+    let mut map: std::collections::HashMap<i64, i64> = Default::default();
+    let mut next = 0i64;
+    let mut get = |s: i64, map: &mut std::collections::HashMap<i64, i64>| -> i64 {
+        if s < 0 {
+            return s;
+        }
+        *map.entry(s).or_insert_with(|| { let v = next; next += 1; v })
+    };
+    // definitions in evaluation order (the tape is stored root first)
+    for g in p.ssa.iter().rev() {
+        if g.class != 0 {
+            get(g.out, &mut map);
+        }
+    }
+    let ssa = p.ssa.iter().map(|g| {
+        let mut h = g.clone();
+        match g.class {
+            0 => h.a = get(g.a, &mut map),
+            1 | 2 => h.out = get(g.out, &mut map),
+            3 | 4 | 5 => { h.out = get(g.out, &mut map); h.a = get(g.a, &mut map); }
+            _ => { h.out = get(g.out, &mut map); h.a = get(g.a, &mut map); h.b = get(g.b, &mut map); }
+        }
+        h
+    }).collect();
+    Prog { ssa, nvars: p.nvars }
+}
